@@ -323,7 +323,7 @@ def finish(run, level, failures, coverage_extra=None, assumptions=None, explanat
         exhaustive=any(s.get("exhaustive") for s in run.stats),
         model_check_runs=run.mc, trace_validation_runs=run.trace_runs,
         driver_counters={s["family"]: s.get("counters", {}) for s in run.stats},
-        driver_notes=[n for s in run.stats for n in s.get("notes", [])],
+        driver_notes=[n for s in run.stats for n in (s.get("notes") or [])],
         selftests=run.selftests,
         known_findings_observed={sig: n for sig, (k, n) in knownhits.items()},
         model_drift_cases=sum(t.get("drift_cases", 0) for t in run.trace_runs),
